@@ -198,6 +198,25 @@ func (w *world) apply(op string, arg string) string {
 			i, _ := strconv.Atoi(arg)
 			w.players[i].Player().Disconnect(nil)
 			r = "-"
+		case "racekick":
+			// "i j": i's connection closes while j registers. Both are started while the harness holds muP, so
+			// both are parked at the lock (a check-then-act unregisterConnection is parked at its READ section
+			// and j at the write lock: on release the reader runs first, j's registration is handed the lock
+			// when the reader leaves, and the stale write section comes last).
+			f := strings.Fields(arg)
+			i, _ := strconv.Atoi(f[0])
+			j, _ := strconv.Atoi(f[1])
+			unlock := proxy.C11HoldWrite(w.px)
+			var wg sync.WaitGroup
+			var res bool
+			wg.Add(2)
+			go func() { defer wg.Done(); w.players[i].Player().Disconnect(nil) }()
+			time.Sleep(4 * time.Millisecond)
+			go func() { defer wg.Done(); res = proxy.C11Register(w.px, w.players[j]) }()
+			time.Sleep(4 * time.Millisecond)
+			unlock()
+			wg.Wait()
+			r = b01(res)
 		case "byid":
 			k, _ := strconv.Atoi(arg)
 			r = "-"
@@ -307,6 +326,7 @@ func randomSeq(run *hx.Run, r *hx.Rng, nOps int) {
 		i := w.add(d.name, d.id)
 		run.Case(class+":setup", fmt.Sprintf("new %d %s %d", i, d.name, d.id), "-")
 	}
+	freshID := 0
 	do := func(op, arg string) string {
 		if op == "reg" {
 			i, _ := strconv.Atoi(arg)
@@ -354,6 +374,32 @@ func randomSeq(run *hx.Run, r *hx.Rng, nOps int) {
 			do("count", "")
 		default:
 			do("list", "")
+		}
+		if w.kickMode() && !w.hung && r.Chance(1, 6) {
+			// a live registered player leaves while a fresh connection (other UUID, often the same lower-case
+			// name) registers
+			_, ids := proxy.C11Snapshot(w.px)
+			var live []int
+			for _, p := range ids {
+				if j := w.idx(p); j < len(w.players) && w.players[j].Active() {
+					live = append(live, j)
+				}
+			}
+			sort.Ints(live)
+			if len(live) > 0 {
+				i := live[r.Intn(len(live))]
+				name := w.names[i]
+				if r.Chance(1, 3) {
+					name = namePool[(base+r.Intn(nNames+2))%len(namePool)]
+				} else if r.Bool() {
+					name = strings.ToUpper(name)
+				}
+				freshID++
+				j := w.add(name, 1000+freshID)
+				np++
+				run.Case(class+":setup", fmt.Sprintf("new %d %s %d", j, name, 1000+freshID), "-")
+				do("racekick", fmt.Sprintf("%d %d", i, j))
+			}
 		}
 		if k%9 == 8 && r.Bool() { // a fresh connection joins the pool
 			d := decl{namePool[(base+r.Intn(nNames+2))%len(namePool)], 1 + r.Intn(nIDs)}
@@ -479,6 +525,12 @@ func main() {
 		{"canreg", "0"}, {"reg", "0"}, {"canreg", "1"}, {"reg", "1"}, {"list", ""}, {"byname", "bob"},
 		{"reg", "2"}, {"byname", "BOB"}, {"disc", "2"}, {"byname", "bob"}, {"byid", "1"}, {"reg", "3"}, {"list", ""},
 		{"disc", "3"}, {"disc", "3"}, {"list", ""}})
+	// kick mode, same lower-case name, different UUIDs: the older connection goes away while the newer one
+	// registers — whatever the interleaving, the newer player must end up findable by name
+	runSeq(run, "fixed:racekick", true, true, []decl{{"bob", 1}, {"Bob", 2}, {"BOB", 3}, {"carl", 4}, {"bOb", 5}}, []seqOp{
+		{"reg", "0"}, {"racekick", "0 1"}, {"byname", "bob"}, {"byid", "2"}, {"list", ""},
+		{"racekick", "1 2"}, {"byname", "BoB"}, {"reg", "3"}, {"racekick", "3 4"}, {"byname", "bob"}, {"byname", "carl"},
+		{"disc", "4"}, {"disc", "2"}, {"list", ""}})
 	// every mode: duplicate by name only, by id only, by both, case variants
 	for _, m := range [][2]bool{{false, false}, {false, true}, {true, false}, {true, true}} {
 		runSeq(run, "fixed:modes", m[0], m[1], []decl{{"Ann", 1}, {"ann", 2}, {"Ben", 1}, {"ANN", 1}, {"Cy", 3}}, []seqOp{
